@@ -479,6 +479,11 @@ func (g *gen) drawTag(name string, label string) string {
 		return fmt.Sprintf(`json:"%s,string"`, snake(name))
 	case 10:
 		return fmt.Sprintf(`json:"%s-x"`, snake(name))
+	case 11:
+		// two tags on one field: optional on the wire and opaque for a target
+		return fmt.Sprintf(`json:"%s,omitempty" gomacro-opaque:"typescript"`, snake(name))
+	case 12:
+		return fmt.Sprintf(`gomacro-opaque:"dart" json:"%s,omitempty"`, snake(name))
 	}
 	return ""
 }
